@@ -58,12 +58,16 @@ check("C06", "TLC exploration of Instance histories (edits x coverings, covering
       "DESIGN.md §4.4, §6 C06")
 
 
-check("C07", "TLC exploration of BMUpdate histories + Ineligible computed by the spec + replay of advertised updaters",
+check("C07", "TLC exploration of BMUpdate histories + Ineligible computed by the spec + replay of advertised updaters + trace validation of the collector's recorded calls against BindMap (BindMapTrace)",
       "TLC explores create(D0); bm(f, v) histories over family UB (eligible bindings on every channel, every "
       "unreachable position holding a field through several expression forms) and computes Ineligible(file); the "
       "harness requires the advertised keys of B to be disjoint from Ineligible and, for every advertised field, runs "
-      "exactly B[f] with the new data and compares with the spec's tree and a fresh creation.",
-      "DESIGN.md §4.4, §6 C07")
+      "exactly B[f] with the new data and compares with the spec's tree and a fresh creation. spec/BindMap.tla is the collector as a machine "
+      "(add_field / disable_field / disable_all / list_fields; MCBindMap: what is advertised depends on the SETS of registered and withdrawn "
+      "fields only, slots are dense, a withdrawal is final - MCBindMapDefect shows a lenient disable_field violating it); the calls the real "
+      "collectors make while every group is parsed and emitted are recorded by a cfg-guarded hook and replayed through the specification's "
+      "operators by TLC: every slot handed out and every listing must be the specification's.",
+      "DESIGN.md §4.4, §6 C07, §13.1")
 
 
 check("C11", "TLC check of get-put on LPath + replay comparing every emitted path argument with LPath",
@@ -224,7 +228,7 @@ def main():
             "guard": "glass_easel_verif",
             "enable": "RUSTFLAGS --cfg glass_easel_verif via harness/.cargo/config.toml (the harness has path dependencies on /repo's two crates)",
             "baseline_off_cmd": "cd /repo && cargo test --workspace --no-fail-fast --offline",
-            "source_commits": ["8372a55", "f196eab"],
+            "source_commits": ["8372a55", "f196eab", "24c3002"],
             "add_only": True,
         },
         "engines": [{
